@@ -328,6 +328,16 @@ mk B26; d=$D
 edit "$d/fit/loess.go" 's.replace("weights[i] = tmp * tmp * tmp", "weights[i] = tmp * tmp")'
 expect B26 "$d" C15 tie_failed tie_LOESS
 
+echo "== H15 harmless: Reverse swaps through a temporary and steps the two indices separately"
+mk H15; d=$D
+edit "$d/graph/graphalg/order.go" 's.replace("\tfor i, j := 0, len(xs)-1; i < j; i, j = i+1, j-1 {\n\t\txs[i], xs[j] = xs[j], xs[i]\n\t}", "\tfor i, j := 0, len(xs)-1; j > i; {\n\t\ttmp := xs[i]\n\t\txs[i] = xs[j]\n\t\txs[j] = tmp\n\t\ti++\n\t\tj--\n\t}")'
+expect H15 "$d" C19 ok
+
+echo "== B27 breaking: Reverse stops one swap early"
+mk B27; d=$D
+edit "$d/graph/graphalg/order.go" 's.replace("i < j; i, j = i+1, j-1 {", "i+2 < j; i, j = i+1, j-1 {")'
+expect B27 "$d" C19 tie_failed tie_Reverse
+
 if [ $FULL = 1 ]; then
   echo "== full check on B1: both ties report (correspondence finds a failing input)"
   out=$(VERIF_REPO="$B1" bin/check C13 quick 2>&1); rc=$?
